@@ -44,6 +44,12 @@ def run_variant(v, with_tests, props_avail):
         for (rel, old, new) in v["edits"]:
             p = os.path.join(tmp, rel)
             s = open(p).read()
+            if old.startswith("ALL:"):          # every occurrence (the two lookup strategies share a passage)
+                old = old[4:]
+                if s.count(old) < 1:
+                    return dict(name=v["name"], status="STALE", detail=f"{rel}: pattern not found")
+                open(p, "w").write(s.replace(old, new))
+                continue
             if s.count(old) != 1:
                 return dict(name=v["name"], status="STALE", detail=f"{rel}: pattern occurs {s.count(old)} times")
             open(p, "w").write(s.replace(old, new))
